@@ -72,6 +72,8 @@ PRIMS = {
     "CMM_LOAD_SHARED": ("uload*", 1, True, "7"), "_CMM_LOAD_SHARED": ("uload*", 1, True, "7"),
     "rcu_dereference": ("uload*", 1, True, "CMM_CONSUME"),
     "uatomic_store": ("ustore", 2, False, 1), "uatomic_set": ("ustore", 2, False, 1),
+    # urcu/static/pointer.h: uatomic_store with RELEASE (RELAXED when the value is the constant NULL – handled in call())
+    "rcu_set_pointer": ("ustore", 2, False, "CMM_RELEASE"), "rcu_assign_pointer": ("ustore*", 2, False, "CMM_RELEASE"),
     "CMM_STORE_SHARED": ("ustore*", 2, False, "7"), "_CMM_STORE_SHARED": ("ustore*", 2, False, "7"),
     "uatomic_xchg": ("uxchg", 2, True, 1), "uatomic_xchg_mo": ("uxchg", 2, True, 1),
     "uatomic_cmpxchg": ("ucmpxchg", 3, True, 2), "uatomic_cmpxchg_mo": ("ucmpxchg", 3, True, 2),
@@ -1107,6 +1109,8 @@ class Translator:
             prim, nargs, hasval, nmo = PRIMS[name]
             if isinstance(nmo, str):
                 mos = [("num", 7)] if nmo == "7" else [("id", nmo)]
+                if name in ("rcu_set_pointer", "rcu_assign_pointer") and len(args) == 2 and args[1] == ("id", "NULL"):
+                    mos = [("id", "CMM_RELAXED")]
                 if len(args) != nargs:
                     raise Unsupported("%s with %d arguments" % (name, len(args)))
             else:
